@@ -67,6 +67,7 @@ type Config struct {
 	SchedDelay     bool
 	MapOrderNondet bool
 	QueryLog       string
+	QueryLogMax    int
 	NoIfConv       bool
 }
 
@@ -168,6 +169,7 @@ func NewEngine(prog *ssa.Program, cfg Config) (*Engine, error) {
 		f, err := os.Create(cfg.QueryLog)
 		if err == nil {
 			s.Log = f
+			s.LogMax = cfg.QueryLogMax
 		}
 	}
 	if rt := prog.ImportedPackage("runtime"); rt != nil {
